@@ -275,8 +275,13 @@ func (p *parser) quant() *Expr {
 		// following token is not ","/"::" — syntax: x, y T
 		// we read: names... then a type identifier
 		// Here names holds [x, y] and next token is the type.
+		stars := ""
+		for p.peek().s == "*" {
+			p.next()
+			stars += "*"
+		}
 		if p.peek().k == "id" {
-			ty := p.next().s
+			ty := stars + p.next().s
 			for p.accept(".") {
 				ty += "." + p.next().s
 			}
